@@ -188,7 +188,7 @@ def zero_count_loop(cx):
             for (b, s) in exits:
                 for e, v in [(x[0], x[1]) for x in f.edge_facts(b, s)]:
                     rel = as_relation((e, v))
-                    if rel and rel[0] == 'Gt' and is_call(rel[1], AN + '::count') and rel[2].is_const_int(0):
+                    if rel and (rel[0] == 'Gt' or rel[0] == 'Ne') and is_call(rel[1], AN + '::count') and rel[2].is_const_int(0):
                         good += 1
                     if e.kind == 'discr' and is_call(e.a, 'VecDeque::front') and v != ('in', frozenset([1])):
                         good += 1
